@@ -105,6 +105,7 @@ def policy_stub(kind):
         ck = E.shared.checker
         ck.act(E, observation, f"{kind}_policy")
         a = E.st.fresh_sym(f"{kind}_action", VAL)
+        ck.note_action(E, a)
         E.st.ghost.setdefault("policy_calls", []).append(dict(kind=kind, action=a, table=q_table, obs=observation, epsilon=epsilon))
         return a
     return stub
